@@ -217,6 +217,8 @@ def p_stereo(N=3, L=4, twin=False, timeout=900, exclude=(), only=None, replay=No
                 stem_coll.append(eq)
         viol = z3.Or(coll) if coll else z3.BoolVal(False)
         region = z3.Or(stem_coll) if stem_coll else z3.BoolVal(False)
+        if twin:
+            return viol                                  # the reachability witness must be an input on which NO two outputs collide
         if only == "stem_collision":
             return z3.And(viol, region)
         if "stem_collision" in excl:
